@@ -44,3 +44,62 @@ fn builtin_definitions__new_matcher_kind() {
     std::mem::forget(a);
     std::mem::forget(n);
 }
+
+// ---------------------------------------------------------------------------
+// The built-in definitions also hand out their own matcher kind when a matcher is
+// DESERIALIZED (the `$lists` section of a serialized context): driven with a minimal
+// serde Deserializer that describes the empty struct `{}` both matchers serialize to.
+use serde::de::{DeserializeSeed, MapAccess, Visitor as SerdeVisitor};
+
+struct EmptyStruct;
+struct EmptyMap;
+
+impl<'de> MapAccess<'de> for EmptyMap {
+    type Error = serde::de::value::Error;
+    fn next_key_seed<K: DeserializeSeed<'de>>(&mut self, _seed: K) -> Result<Option<K::Value>, Self::Error> {
+        Ok(None)
+    }
+    fn next_value_seed<V: DeserializeSeed<'de>>(&mut self, _seed: V) -> Result<V::Value, Self::Error> {
+        unreachable!()
+    }
+}
+
+impl<'de> serde::Deserializer<'de> for EmptyStruct {
+    type Error = serde::de::value::Error;
+    fn deserialize_any<V: SerdeVisitor<'de>>(self, visitor: V) -> Result<V::Value, Self::Error> {
+        visitor.visit_map(EmptyMap)
+    }
+    serde::forward_to_deserialize_any! {
+        bool i8 i16 i32 i64 i128 u8 u16 u32 u64 u128 f32 f64 char str string bytes byte_buf option unit
+        unit_struct newtype_struct seq tuple tuple_struct map struct enum identifier ignored_any
+    }
+}
+
+#[kani::proof]
+#[kani::unwind(4)]
+fn builtin_definitions__deserialized_matcher_kind() {
+    let x: i64 = kani::any();
+    let v = LhsValue::Int(x);
+    let mut d = <dyn erased_serde::Deserializer>::erase(EmptyStruct);
+    let never = NeverList {}.deserialize_matcher(Type::Int, &mut d);
+    match &never {
+        Ok(m) => {
+            assert!(!m.match_value("n", &v), "a deserialized never-list matcher matches nothing");
+        }
+        Err(_) => {
+            assert!(false, "`{}` must deserialize into the never-list matcher");
+        }
+    }
+    std::mem::forget(never);
+    let mut d = <dyn erased_serde::Deserializer>::erase(EmptyStruct);
+    let always = AlwaysList {}.deserialize_matcher(Type::Int, &mut d);
+    match &always {
+        Ok(m) => {
+            assert!(m.match_value("n", &v), "a deserialized always-list matcher matches everything");
+        }
+        Err(_) => {
+            assert!(false, "`{}` must deserialize into the always-list matcher");
+        }
+    }
+    std::mem::forget(always);
+}
